@@ -454,3 +454,294 @@ Proof.
     all: apply Z.leb_gt in Et; unfold COMP_CODE_NONE in Et.
     all: rewrite (HS Err Hpos' (or_intror (ex_intro _ _ (conj (Hrc _ _ eq_refl) Et)))); rewrite Err; apply str_eqb_refl.
 Qed.
+
+(** * Totality: the only ways the decision can fail *)
+Lemma get_info_comp_origin : forall o rank p g g' have,
+  get_info o rank p g = Some (g', have) ->
+  g_comp g' = g_comp g \/ exists c, tbl_req_comp o p = Some c /\ g_comp g' = c_type c.
+Proof.
+  intros o rank p g g' have Hg. unfold get_info in Hg. unfold tbl_req_comp.
+  assert (CIC : forall g1 c, g_comp (comp_into_chunk (set_comp g1 c)) = c_type c).
+  { intros. unfold comp_into_chunk, set_comp. simpl. destruct (flags_chunked (g_flags g1)); reflexivity. }
+  assert (GC : forall g0, g_comp (global_chunk o rank g0) = g_comp g0).
+  { intros. unfold global_chunk, set_flags, set_chunk.
+    destruct (k_rank (chunk_g o) =? -2); [reflexivity|]. destruct (negb (k_rank (chunk_g o) =? rank)); reflexivity. }
+  assert (EC : forall e g0 g1, entry_chunk e rank g0 = Some g1 -> g_comp g1 = g_comp g0).
+  { intros e g0 g1. unfold entry_chunk, set_flags, set_chunk.
+    destruct ((0 <? k_rank (p_chunk e)) && negb (k_rank (p_chunk e) =? rank)); [discriminate|].
+    intro H; inversion H. destruct (k_rank (p_chunk e) =? -2); [reflexivity|].
+    destruct (0 <? k_rank (p_chunk e)); reflexivity. }
+  destruct (all_chunk o); destruct (all_comp o); simpl in Hg.
+  - inversion Hg; subst. right. eexists; split; [reflexivity | apply CIC].
+  - destruct (lookup p (tbl o)) as [e|]; inversion Hg; subst.
+    + right. eexists; split; [reflexivity | apply CIC].
+    + left. apply GC.
+  - destruct (lookup p (tbl o)) as [e|].
+    + destruct (entry_chunk e rank g) as [g1|]; [|discriminate]. inversion Hg; subst.
+      right. eexists; split; [reflexivity | apply CIC].
+    + inversion Hg; subst. right. eexists; split; [reflexivity | apply CIC].
+  - destruct (lookup p (tbl o)) as [e|].
+    + destruct (entry_chunk e rank g) as [g1|] eqn:Ee; [|discriminate].
+      destruct (0 <=? c_type (p_comp e)); inversion Hg; subst.
+      * right. eexists; split; [reflexivity | apply CIC].
+      * left. eapply EC; eauto.
+    + inversion Hg; subst. left. reflexivity.
+Qed.
+
+Lemma get_info_fail : forall o rank p g,
+  get_info o rank p g = None ->
+  exists e, all_chunk o = false /\ lookup p (tbl o) = Some e /\ 0 < k_rank (p_chunk e) /\ k_rank (p_chunk e) <> rank.
+Proof.
+  intros o rank p g Hg. unfold get_info in Hg.
+  assert (EC : forall e, entry_chunk e rank g = None -> 0 < k_rank (p_chunk e) /\ k_rank (p_chunk e) <> rank).
+  { intro e. unfold entry_chunk.
+    destruct ((0 <? k_rank (p_chunk e)) && negb (k_rank (p_chunk e) =? rank)) eqn:E; [|discriminate].
+    intros _. apply andb_true_iff in E. destruct E as [E1 E2]. apply Z.ltb_lt in E1.
+    apply negb_true_iff in E2. apply Z.eqb_neq in E2. auto. }
+  destruct (all_chunk o); destruct (all_comp o); simpl in Hg; try discriminate.
+  - destruct (lookup p (tbl o)) as [e|]; discriminate.
+  - destruct (lookup p (tbl o)) as [e|] eqn:El; [|discriminate].
+    destruct (entry_chunk e rank g) as [g1|] eqn:Ee; [discriminate|].
+    exists e. destruct (EC e Ee). auto.
+  - destruct (lookup p (tbl o)) as [e|] eqn:El; [|discriminate].
+    destruct (entry_chunk e rank g) as [g1|] eqn:Ee.
+    + destruct (0 <=? c_type (p_comp e)); discriminate.
+    + exists e. destruct (EC e Ee). auto.
+Qed.
+
+Lemma decide_total_lemma : forall o k p i,
+  decide o k p i = None ->
+  (k = KSds \/ k = KGr) /\
+  ((exists e, all_chunk o = false /\ lookup p (tbl o) = Some e /\ 0 < k_rank (p_chunk e) /\
+              k_rank (p_chunk e) <> rank_of k i)
+   \/ (k = KSds /\ o_empty i = false /\
+       (l_comp (o_lay i) = COMP_CODE_JPEG \/ exists c, tbl_req_comp o p = Some c /\ c_type c = COMP_CODE_JPEG))).
+Proof.
+  intros o k p i Hd. destruct k; simpl in Hd; try discriminate.
+  - split; [auto|]. unfold decide_sds in Hd. destruct (o_empty i) eqn:Hne; [discriminate|].
+    destruct (get_info o (o_rank i) p (gstate_of (o_lay i))) as [[g' have]|] eqn:Eg.
+    + right. split; [reflexivity|]. split; [reflexivity|].
+      unfold sds_finish in Hd.
+      destruct (truth (sds_restore_cond (b2z have) 1 (o_bytes i) 1 (threshold o))).
+      * simpl in Hd. destruct (l_comp (o_lay i) =? COMP_CODE_JPEG) eqn:EJ.
+        -- left. apply Z.eqb_eq. exact EJ.
+        -- exfalso.
+           destruct (truth (sds_chunk_branch (flags_of (o_lay i)))).
+           ++ destruct (truth (sds_record_cond (b2z (l_rec (o_lay i))) (l_comp (o_lay i)))); discriminate.
+           ++ destruct (truth (sds_comp_branch (flags_of (o_lay i)) (l_comp (o_lay i)))); [|discriminate].
+              destruct (truth (sds_small_cond (o_bytes i) 1 (threshold o))); [discriminate|].
+              destruct (l_comp (o_lay i) =? COMP_CODE_NBIT); discriminate.
+      * destruct (g_comp g' =? COMP_CODE_JPEG) eqn:EJ.
+        -- apply Z.eqb_eq in EJ.
+           destruct (get_info_comp_origin _ _ _ _ _ _ Eg) as [H|[c [H1 H2]]].
+           ++ left. rewrite <- EJ. rewrite H. reflexivity.
+           ++ right. exists c. split; [exact H1|]. rewrite <- H2. exact EJ.
+        -- exfalso.
+           destruct (truth (sds_chunk_branch (g_flags g'))).
+           ++ destruct (truth (sds_record_cond (b2z (l_rec (o_lay i))) (g_comp g'))); discriminate.
+           ++ destruct (truth (sds_comp_branch (g_flags g') (g_comp g'))); [|discriminate].
+              destruct (truth (sds_small_cond (o_bytes i) 1 (threshold o))); [discriminate|].
+              destruct (g_comp g' =? COMP_CODE_NBIT); discriminate.
+    + left. exact (get_info_fail _ _ _ _ Eg).
+  - split; [auto|]. unfold decide_gr in Hd.
+    destruct (get_info o 2 p (gstate_of (o_lay i))) as [[g' have]|] eqn:Eg.
+    + exfalso. unfold gr_finish in Hd.
+      destruct (truth (gr_restore_cond (b2z have) 1 (o_bytes i) 1 (threshold o))).
+      * destruct (flags_chunked (g_flags (restore_small (o_lay i) g'))); [discriminate|].
+        destruct (truth (gr_comp_branch (g_flags (restore_small (o_lay i) g')) (g_comp (restore_small (o_lay i) g')))); [|discriminate].
+        destruct (truth (gr_small_cond (b2z have) 1 (o_bytes i) 1 (threshold o))); discriminate.
+      * destruct (flags_chunked (g_flags g')); [discriminate|].
+        destruct (truth (gr_comp_branch (g_flags g') (g_comp g'))); [|discriminate].
+        destruct (truth (gr_small_cond (b2z have) 1 (o_bytes i) 1 (threshold o))); discriminate.
+    + left. exact (get_info_fail _ _ _ _ Eg).
+Qed.
+
+(** * Printing then parsing the options gives the options back *)
+Lemma split_first_app : forall c a b, ~ In c a -> split_first c (a ++ c :: b) = Some (a, b).
+Proof.
+  intros c a b. induction a as [|x a IH]; intro Hn; simpl.
+  - rewrite Z.eqb_refl. reflexivity.
+  - destruct (x =? c) eqn:E.
+    + apply Z.eqb_eq in E. exfalso. apply Hn. left. exact E.
+    + rewrite IH; [reflexivity|]. intro H. apply Hn. right. exact H.
+Qed.
+
+Lemma split_last_app : forall c a b, ~ In c b -> split_last c (a ++ c :: b) = Some (a, b).
+Proof.
+  intros c a b Hn. unfold split_last.
+  rewrite rev_app_distr. simpl. rewrite <- app_assoc. simpl.
+  rewrite split_first_app.
+  - rewrite !rev_involutive. reflexivity.
+  - intro H. apply Hn. apply in_rev. exact H.
+Qed.
+
+Lemma split_all_app : forall c n s cur, ~ In c n -> split_all c (n ++ s) cur = split_all c s (rev n ++ cur).
+Proof.
+  intros c n. induction n as [|x n IH]; intros s cur Hn; simpl; [reflexivity|].
+  destruct (x =? c) eqn:E.
+  - apply Z.eqb_eq in E. exfalso. apply Hn. left. exact E.
+  - rewrite IH.
+    + rewrite <- app_assoc. reflexivity.
+    + intro H. apply Hn. right. exact H.
+Qed.
+
+Lemma split_all_join : forall c names, names <> [] -> Forall (fun n => ~ In c n) names ->
+  split_all c (join c names) [] = names.
+Proof.
+  intros c names. induction names as [|n r IH]; intros Hne Hf; [contradiction|].
+  inversion Hf as [|? ? Hn Hr]; subst.
+  destruct r as [|n2 r'].
+  - simpl. rewrite <- (app_nil_r n) at 1. rewrite split_all_app by exact Hn. simpl.
+    rewrite app_nil_r. rewrite rev_involutive. reflexivity.
+  - change (join c (n :: n2 :: r')) with (n ++ c :: join c (n2 :: r')).
+    rewrite split_all_app by exact Hn. simpl. rewrite Z.eqb_refl.
+    rewrite app_nil_r. rewrite rev_involutive. f_equal. apply IH; [discriminate | exact Hr].
+Qed.
+
+Definition wf_name (n : str) : Prop :=
+  n <> [] /\ ~ In ch_colon n /\ ~ In ch_comma n /\ zlen n < H4_MAX_NC_NAME.
+
+Lemma join_no_colon : forall names, Forall wf_name names -> ~ In ch_colon (join ch_comma names).
+Proof.
+  induction names as [|n r IH]; intro Hf; simpl; [auto|].
+  inversion Hf as [|? ? [_ [Hc _]] Hr]; subst.
+  destruct r; [exact Hc|].
+  intro H. apply in_app_or in H. destruct H as [H|H]; [exact (Hc H)|].
+  simpl in H. destruct H as [H|H]; [discriminate|]. exact (IH Hr H).
+Qed.
+
+Lemma parse_names_join : forall names, names <> [] -> Forall wf_name names ->
+  parse_names (join ch_comma names) = ROk names.
+Proof.
+  intros names Hne Hf. unfold parse_names.
+  rewrite split_all_join; [|exact Hne|].
+  - assert (L : str_eqb (last names []) [] = false).
+    { assert (Hl : wf_name (last names [])).
+      { rewrite Forall_forall in Hf. apply Hf. destruct names; [contradiction|].
+        apply (@exists_last _ (s :: names)) in Hne. destruct Hne as [l' [a E]]. rewrite E.
+        rewrite last_last. apply in_or_app. right. left. reflexivity. }
+      destruct Hl as [Hl _]. destruct (last names []); [contradiction|reflexivity]. }
+    rewrite L.
+    assert (X : existsb (fun n => H4_MAX_NC_NAME <=? zlen n) names = false).
+    { apply not_true_is_false. intro H. apply existsb_exists in H. destruct H as [n [Hin Hb]].
+      rewrite Forall_forall in Hf. destruct (Hf n Hin) as [_ [_ [_ Hlen]]]. apply Z.leb_le in Hb. lia. }
+    rewrite X. reflexivity.
+  - eapply Forall_impl; [|exact Hf]. intros n [_ [_ [Hc _]]]. exact Hc.
+Qed.
+
+(** every (type, parameter) the parser can accept within its buffers: NONE and RLE without parameter,
+    HUFF 1..9999, GZIP 0..9 *)
+Definition zrange (lo : Z) (n : nat) : list Z := map (fun k => lo + Z.of_nat k) (seq 0 n).
+Definition comp_domain : list (Z * Z) :=
+  [(COMP_CODE_NONE, -1); (COMP_CODE_RLE, -1)] ++ map (fun i => (COMP_CODE_SKPHUFF, i)) (zrange 1 (Z.to_nat 9999)) ++
+  map (fun i => (COMP_CODE_DEFLATE, i)) (zrange 0 (Z.to_nat 10)).
+
+Definition comp_tail (t i : Z) : str :=
+  find_scomp t scomp_table ++ (if has_param t then ch_space :: print_nat i else []).
+
+Definition tail_ok (ti : Z * Z) : bool :=
+  let '(t, i) := ti in
+  negb (existsb (Z.eqb ch_colon) (comp_tail t i)) &&
+  match parse_comp_tail [] (comp_tail t i) with
+  | ROk e => (ce_type e =? t) && (ce_info e =? i)
+  | _ => false
+  end.
+
+Lemma comp_domain_ok : forallb tail_ok comp_domain = true.
+Proof. vm_compute. reflexivity. Qed.
+
+Lemma parse_comp_tail_names : forall names tail e,
+  parse_comp_tail [] tail = ROk e ->
+  parse_comp_tail names tail = ROk {| ce_names := names; ce_type := ce_type e; ce_info := ce_info e |}.
+Proof.
+  intros names tail e. unfold parse_comp_tail.
+  destruct (str_eqb tail []); [discriminate|].
+  destruct (split_first ch_space tail) as [[w pp]|].
+  - destruct (9 <? zlen w); [discriminate|]. destruct (str_eqb w kw_SZIP); [discriminate|].
+    destruct (negb (forallb is_digit pp)); [discriminate|]. destruct (4 <? zlen pp); [discriminate|].
+    destruct (find_kw w comp_keywords) as [[code rule]|]; [|discriminate].
+    destruct ((rule =? 2) && (0 <? zlen pp)); [discriminate|].
+    destruct (comp_param_bad code (atoi pp)); [discriminate|]. intro H; inversion H; reflexivity.
+  - destruct (9 <? zlen tail); [discriminate|]. destruct (str_eqb tail kw_SZIP); [discriminate|].
+    destruct (find_kw tail comp_keywords) as [[code rule]|]; [|discriminate].
+    destruct (rule =? 1); [discriminate|]. destruct (comp_param_bad code (-1)); [discriminate|].
+    intro H; inversion H; reflexivity.
+Qed.
+
+Lemma existsb_eqb_In : forall c l, existsb (Z.eqb c) l = false -> ~ In c l.
+Proof.
+  intros c l H Hin. assert (existsb (Z.eqb c) l = true).
+  { apply existsb_exists. exists c. split; [exact Hin | apply Z.eqb_refl]. }
+  congruence.
+Qed.
+
+Lemma parse_print_comp_lemma : forall names t i,
+  names <> [] -> Forall wf_name names -> In (t, i) comp_domain ->
+  parse_comp (print_comp {| ce_names := names; ce_type := t; ce_info := i |}) =
+  ROk {| ce_names := names; ce_type := t; ce_info := i |}.
+Proof.
+  intros names t i Hne Hf Hin.
+  pose proof comp_domain_ok as D. rewrite forallb_forall in D. specialize (D _ Hin). clear Hin.
+  unfold tail_ok in D. apply andb_true_iff in D. destruct D as [Dc Dp].
+  apply negb_true_iff in Dc. apply existsb_eqb_In in Dc.
+  unfold parse_comp, print_comp. cbn [ce_names ce_type ce_info].
+  change (find_scomp t scomp_table ++ (if has_param t then ch_space :: print_nat i else [])) with (comp_tail t i).
+  rewrite split_last_app by exact Dc.
+  rewrite parse_names_join by assumption.
+  destruct (parse_comp_tail [] (comp_tail t i)) as [e'| |] eqn:Ep; try discriminate.
+  rewrite (parse_comp_tail_names names _ _ Ep).
+  apply andb_true_iff in Dp. destruct Dp as [D1 D2]. apply Z.eqb_eq in D1. apply Z.eqb_eq in D2.
+  rewrite D1, D2. reflexivity.
+Qed.
+
+(** -c options: shapes of rank 1..3 with lengths 1..12, and NONE (a complete finite domain; the general statement
+    needs [atoi (print_nat n) = n] for all n < 10^9 and an induction over the rank, not proved here) *)
+Definition small_lens : list Z := zrange 1 (Z.to_nat 12).
+Definition chunk_domain : list (Z * list Z) :=
+  (-2, []) :: map (fun a => (1, [a])) small_lens ++
+  flat_map (fun a => map (fun b => (2, [a; b])) small_lens) small_lens ++
+  flat_map (fun a => flat_map (fun b => map (fun c => (3, [a; b; c])) small_lens) small_lens) small_lens.
+
+Definition chunk_tail (r : Z) (lens : list Z) : str :=
+  if r =? -2 then kw_NONE else join ch_x (map print_nat lens).
+
+Definition chunk_tail_ok (rl : Z * list Z) : bool :=
+  let '(r, lens) := rl in
+  negb (existsb (Z.eqb ch_colon) (chunk_tail r lens)) && negb (str_eqb (chunk_tail r lens) []) &&
+  match chunk_loop (chunk_tail r lens) [] [] with
+  | ROk e => (ke_rank e =? r) && str_eqb (ke_lens e) lens
+  | _ => false
+  end.
+
+Lemma chunk_domain_ok : forallb chunk_tail_ok chunk_domain = true.
+Proof. vm_compute. reflexivity. Qed.
+
+Lemma str_eqb_eq : forall a b, str_eqb a b = true -> a = b.
+Proof.
+  induction a as [|x a IH]; destruct b as [|y b]; simpl; intro H; try discriminate; [reflexivity|].
+  apply andb_true_iff in H. destruct H as [H1 H2]. apply Z.eqb_eq in H1. subst. f_equal. apply IH. exact H2.
+Qed.
+
+Lemma parse_print_chunk_partial_lemma : forall names r lens,
+  names <> [] -> Forall wf_name names -> In (r, lens) chunk_domain ->
+  parse_chunk (print_chunk {| ke_names := names; ke_rank := r; ke_lens := lens |}) =
+  ROk {| ke_names := names; ke_rank := r; ke_lens := lens |}.
+Proof.
+  intros names r lens Hne Hf Hin.
+  pose proof chunk_domain_ok as D. rewrite forallb_forall in D. specialize (D _ Hin). clear Hin.
+  unfold chunk_tail_ok in D. apply andb_true_iff in D. destruct D as [D Dp].
+  apply andb_true_iff in D. destruct D as [Dc De].
+  apply negb_true_iff in Dc. apply existsb_eqb_In in Dc. apply negb_true_iff in De.
+  unfold parse_chunk, print_chunk. cbn [ke_names ke_rank ke_lens].
+  change (if r =? -2 then kw_NONE else join ch_x (map print_nat lens)) with (chunk_tail r lens).
+  rewrite split_last_app by exact Dc.
+  rewrite parse_names_join by assumption.
+  match goal with |- (if ?c then _ else _) = _ => replace c with false by (symmetry; exact De) end.
+  match goal with |- match ?x with ROk _ => _ | RErr => _ | RUndef => _ end = _ => remember x as cl eqn:Ecl end.
+  assert (Dp' : match cl with ROk e => (ke_rank e =? r) && str_eqb (ke_lens e) lens | _ => false end = true)
+    by (subst cl; exact Dp).
+  clear Dp Ecl. rename Dp' into Dp.
+  destruct cl as [e'| |]; try discriminate.
+  apply andb_true_iff in Dp. destruct Dp as [D1 D2]. apply Z.eqb_eq in D1. apply str_eqb_eq in D2.
+  rewrite D1, D2. reflexivity.
+Qed.
